@@ -3,7 +3,7 @@
 //! and cleanup of dead nodes are issued in the other. Every observation is recorded; the
 //! Isolation / RoundTrip clauses of spec/data/Domains.tla are evaluated by TLC.
 
-use std::collections::HashMap;
+use std::collections::{BTreeSet, HashMap};
 use std::io::{BufRead, BufReader};
 use std::process::{Command, Stdio};
 
@@ -70,8 +70,61 @@ struct Rec<'a> {
 impl Rec<'_> {
     #[allow(clippy::too_many_arguments)]
     fn op(&mut self, a: &str, d: usize, id: u64, name: &str, r: &str, ids: &[u64], states: &[String], names: &[String], n: u64) {
-        self.w.emit(&json!({"k":"op","a":a,"d":d,"id":id,"name":name,"r":r,"ids":ids,"states":states,"names":names,"n":n}));
+        let nop: [Vec<u8>; 0] = [];
+        self.w.emit(&json!({"k":"op","a":a,"d":d,"id":id,"name":name,"r":r,"ids":ids,"states":states,"names":names,"n":n,"paths":nop}));
         *self.per.entry(a.to_string()).or_insert(0) += 1;
+    }
+
+    /// the regular files / shared memory objects that appeared since the last scan, attributed to
+    /// the domain that was the only one creating anything in between
+    fn created(&mut self, d: usize, scan: &mut Scan) {
+        let now = scan.scan();
+        let new: Vec<Vec<u8>> = now.difference(&scan.last).map(|p| p.as_bytes().to_vec()).collect();
+        scan.last = now;
+        let none: [u64; 0] = [];
+        let nos: [String; 0] = [];
+        self.w.emit(&json!({"k":"op","a":"created_files","d":d,"id":0,"name":"","r":"ok","ids":none,"states":nos,"names":nos,
+            "n":new.len(),"paths":new}));
+        *self.per.entry("created_files".to_string()).or_insert(0) += 1;
+        *self.per.entry("created_paths".to_string()).or_insert(0) += new.len() as u64;
+    }
+}
+
+struct Scan {
+    roots: Vec<String>,
+    tag: String,
+    last: BTreeSet<String>,
+}
+
+impl Scan {
+    fn walk(dir: &std::path::Path, out: &mut BTreeSet<String>) {
+        if let Ok(rd) = std::fs::read_dir(dir) {
+            for e in rd.flatten() {
+                let p = e.path();
+                match e.file_type() {
+                    Ok(t) if t.is_dir() => Self::walk(&p, out),
+                    Ok(_) => {
+                        out.insert(p.to_string_lossy().to_string());
+                    }
+                    Err(_) => {}
+                }
+            }
+        }
+    }
+    fn scan(&self) -> BTreeSet<String> {
+        let mut out = BTreeSet::new();
+        for r in self.roots.iter() {
+            Self::walk(std::path::Path::new(r), &mut out);
+        }
+        if let Ok(rd) = std::fs::read_dir("/dev/shm") {
+            for e in rd.flatten() {
+                let n = e.file_name().to_string_lossy().to_string();
+                if n.starts_with(&self.tag) {
+                    out.insert(format!("/dev/shm/{n}"));
+                }
+            }
+        }
+        out
     }
 }
 
@@ -125,9 +178,14 @@ struct Dom {
     cfg: Config,
 }
 
-fn scenario(rec: &mut Rec, run: u64, tag: &str, doms: [&Dom; 2]) {
+fn scenario(rec: &mut Rec, run: u64, tag: &str, doms: [&Dom; 2], shm_tag: &str) {
     let mut ids = Ids { map: HashMap::new(), next_unknown: 0 };
+    let mut scan = Scan { roots: vec![doms[0].root.clone(), doms[1].root.clone()], tag: shm_tag.to_string(), last: BTreeSet::new() };
+    scan.roots.dedup();
+    scan.last = scan.scan();
     rec.w.emit(&json!({"k":"reset","run":run,"pair":tag,
+        "root0b":doms[0].root.as_bytes(),"root1b":doms[1].root.as_bytes(),
+        "prefix0b":doms[0].prefix.as_bytes(),"prefix1b":doms[1].prefix.as_bytes(),
         "same_root": doms[0].root == doms[1].root, "same_prefix": doms[0].prefix == doms[1].prefix,
         "prefix0":doms[0].prefix,"prefix1":doms[1].prefix,"root0":doms[0].root,"root1":doms[1].root}));
     let none: [u64; 0] = [];
@@ -147,6 +205,7 @@ fn scenario(rec: &mut Rec, run: u64, tag: &str, doms: [&Dom; 2]) {
                 nodes.push(None);
             }
         }
+        rec.created(d, &mut scan);
     }
     let mut services = vec![];
     for d in 0..2 {
@@ -156,12 +215,13 @@ fn scenario(rec: &mut Rec, run: u64, tag: &str, doms: [&Dom; 2]) {
                 match r {
                     Ok(s) => {
                         rec.op("create_service", d, (d as u64) * 10 + 1, &name, "ok", &none, &nos, &nos, 0);
-                        services.push(s);
+                        services.push((d, name.clone(), s));
                     }
                     Err(e) => rec.op("create_service", d, (d as u64) * 10 + 1, &name, &format!("{e:?}"), &none, &nos, &nos, 0),
                 }
             }
         }
+        rec.created(d, &mut scan);
     }
     let observe = |rec: &mut Rec, ids: &mut Ids, names: &[String]| {
         for d in 0..2 {
@@ -202,6 +262,7 @@ fn scenario(rec: &mut Rec, run: u64, tag: &str, doms: [&Dom; 2]) {
         ids.known(vid, vidx);
         rec.op("create_node", d, vidx, "", "ok", &none, &nos, &nos, 0);
         rec.op("create_service", d, vidx, &vname, "ok", &none, &nos, &nos, 0);
+        rec.created(d, &mut scan);
         all_names.push(vname.clone());
         observe(rec, &mut ids, &all_names);
         child.kill().expect("kill victim");
@@ -217,8 +278,12 @@ fn scenario(rec: &mut Rec, run: u64, tag: &str, doms: [&Dom; 2]) {
         }
     }
     // ---- orderly shutdown of one domain must not disturb the other
-    services.clear();
     for d in 0..2 {
+        while let Some(i) = services.iter().position(|x| x.0 == d) {
+            let (_, name, handle) = services.remove(i);
+            drop(handle);
+            rec.op("drop_service", d, (d as u64) * 10 + 1, &name, "ok", &none, &nos, &nos, 0);
+        }
         if let Some(n) = nodes[d].take() {
             drop(n);
             rec.op("drop_node", d, (d as u64) * 10 + 1, "", "ok", &none, &nos, &nos, 0);
@@ -243,9 +308,17 @@ pub fn main(args: &Args) {
         ("diff-root-same-prefix", &r1, format!("{tag}s_"), &r2, format!("{tag}s_")),
         ("diff-root-diff-prefix", &r1, format!("{tag}p_"), &r2, format!("{tag}q_")),
         ("diff-root-digit-ext", &r1, format!("{tag}c_"), &r2, format!("{tag}c_1")),
+        // thorough tier (--more)
+        ("same-root-letter-ext", &r1, format!("{tag}g"), &r1, format!("{tag}gh")),
+        ("same-root-2digit-ext-swapped", &r1, format!("{tag}d_42"), &r1, format!("{tag}d_")),
+        ("same-root-digit-ext-nodelim", &r1, format!("{tag}k"), &r1, format!("{tag}k7")),
+        ("same-root-suffix-like", &r1, format!("{tag}m_"), &r1, format!("{tag}m_.node_monitor")),
     ];
     let mut run = 0;
     for (name, root0, p0, root1, p1) in pairs.iter() {
+        if !args.flag("more") && pairs.iter().position(|p| p.0 == *name).unwrap() >= 6 {
+            continue;
+        }
         if let Some(o) = &only {
             if !o.split(',').any(|x| x == *name) {
                 continue;
@@ -254,7 +327,7 @@ pub fn main(args: &Args) {
         let d0 = Dom { root: root0.to_string(), prefix: p0.clone(), cfg: make_config(root0, p0) };
         let d1 = Dom { root: root1.to_string(), prefix: p1.clone(), cfg: make_config(root1, p1) };
         run += 1;
-        scenario(&mut rec, run, name, [&d0, &d1]);
+        scenario(&mut rec, run, name, [&d0, &d1], &tag);
     }
     let per = rec.per.clone();
     w.flush();
